@@ -247,6 +247,32 @@ static std::string do_H(const std::vector<std::string>& f, double den) {
   return values_str(r, K, pts);
 }
 
+// U den | A ; B ; C | gmin gmax npts : grid landscapes of three diagrams on one grid; prints the stored values of every
+// level at every grid point (vectorize) and the inner products the class computes, for the exact cell-wise check
+static std::string do_U(const std::vector<std::string>& f, double den) {
+  auto g = words(f[2]);
+  double gmin = std::stod(g[0]) / den, gmax = std::stod(g[1]) / den;
+  size_t npts = std::stoul(g[2]);
+  std::vector<Persistence_landscape_on_grid> ls;
+  size_t K = 0;
+  for (auto& ds : split(f[1], ';')) { Diagram d = diagram(ds, den); K = std::max(K, d.size()); ls.push_back(make_grid(d, gmin, gmax, npts, 0)); }
+  Persistence_landscape_on_grid &A = ls.at(0), &B = ls.at(1), &C = ls.at(2);
+  std::string s;
+  std::vector<double> gpts;                       // the npts + 1 grid points
+  for (size_t i = 0; i <= npts; ++i) gpts.push_back(gmin + (gmax - gmin) * (double)i / (double)npts);
+  for (size_t t = 0; t < 3; ++t) {
+    if (t) s += " # ";
+    s += values_str(ls[t], K, gpts);               // every level 0..K at every grid point
+  }
+  s += " # ";
+  auto put = [&](const char* name, double v) { s += std::string(name) + "=" + rat(v) + " "; };
+  put("ipAB", A.compute_scalar_product(B)); put("ipBA", B.compute_scalar_product(A)); put("ipAA", A.compute_scalar_product(A));
+  put("ipAC", A.compute_scalar_product(C)); put("ipBC", B.compute_scalar_product(C)); put("ipCC", C.compute_scalar_product(C));
+  put("ipSC", (A + B).compute_scalar_product(C)); put("ipCS", C.compute_scalar_product(A + B));
+  put("ip2AB", (A * 2.0).compute_scalar_product(B));
+  return s;
+}
+
 int main() {
   vh::install();
   std::string line;
@@ -260,6 +286,7 @@ int main() {
       else if (h[0] == "X") ans = do_X(f, den);
       else if (h[0] == "E") ans = do_E(f, den);
       else if (h[0] == "T") ans = do_T(f, den);
+      else if (h[0] == "U") ans = do_U(f, den);
       else if (h[0] == "G") ans = do_G(f, den);
       else if (h[0] == "H") ans = do_H(f, den);
       else ans = "BADLINE";
